@@ -247,6 +247,8 @@ class C19(runner.Check):
             "creates the Volatile object is order-dependent and not judged; re-entrant self re-entries are generated "
             "on flat machines with the probe only (on hierarchical machines a trigger from inside an enter callback "
             "runs while the engine is half-way, C03's subject)",
+            "an entry that Error rejected may or may not have been counted by Retry (decorator order): the oracle does "
+            "not judge Retry on rejecting dead ends and forgets its count after a rejected entry",
             "model.to(<state>) can re-enter a dead end from itself; if Retry, placed before Error in the decorator, refuses "
             "that entry Error never sees it — mirrored by the model, not judged (C19_error_iff's hypothesis hwf)",
             "on a machine without Tags/Error a state must answer is_<name> as a state of the undecorated class with the "
